@@ -60,7 +60,11 @@ func VerifH_C09_CKKSBinaryOpsAliasing() {
 			if cs.tag != "" && op.name != "Add" && op.name != "Sub" {
 				continue
 			}
-			tag := op.name + "-L" + vItoa(level) + cs.tag
+			lname := "Lmax"
+			if level != params.MaxLevel() {
+				lname = "L" + vItoa(level)
+			}
+			tag := op.name + "-" + lname + cs.tag
 			a := vAtomCiphertext(c, 1, level, "a", cs.sa)
 			b := vAtomCiphertext(c, 1, level, "b", cs.sb)
 			a0, b0 := a.CopyNew(), b.CopyNew()
